@@ -370,7 +370,7 @@ def finish(prop_id, tier, seed, total: Partial, *, rule, assumptions, t0, level=
         "wall_s": round(time.time() - t0, 2),
         "violations": len(new),
     }
-    if write_evidence:
+    if write_evidence and not os.environ.get("VF_NO_EVIDENCE"):
         os.makedirs(os.path.join(HOME, "evidence"), exist_ok=True)
         with open(os.path.join(HOME, "evidence", prop_id + ".json"), "w") as fh:
             fh.write(json.dumps(json.loads(jdump(ev)), indent=1, sort_keys=True))
